@@ -74,7 +74,16 @@ pub fn run(sched: &Rc<Sched>, steps: &[Value], ctl: &mut dyn Control, rng: &mut 
         final_status: String::new(),
     };
     let n = sched.statuses().len();
+    // steps may be delta-encoded (only the keys that changed): accumulate the spec's state
+    let mut cur = vrt::Map::new();
     for (k, s) in steps.iter().enumerate() {
+        if let Some(m) = s.as_object() {
+            for (key, v) in m {
+                cur.insert(key.clone(), v.clone());
+            }
+        }
+        let merged = Value::Object(cur.clone());
+        let s = &merged;
         let t = ctl.thread_of(s);
         let st = if t < n { sched.status(t) } else { Status::Fresh };
         if t >= n
